@@ -236,6 +236,13 @@ class T(object):
                     _need(sp.And(hi >= lo, hi <= d), 'slice stop in range')
                 plan.append(('out', len(outshape), lo))
                 outshape.append(simp_int(hi - lo))
+            elif isinstance(k, (list, _np.ndarray)) and _np.asarray(k).ndim == 1 and _np.asarray(k).dtype.kind in 'iu':
+                arr = [int(v) for v in _np.asarray(k)]
+                for v in arr:
+                    if not (d.is_Integer and -int(d) <= v < int(d)):
+                        _need(sp.And(v >= 0, v < d), 'index in bounds')
+                plan.append(('map', len(outshape), arr))
+                outshape.append(Integer(len(arr)))
             elif isinstance(k, (T, list, _np.ndarray)):
                 raise Unsupported('advanced indexing on symbolic tensor')
             else:
@@ -250,11 +257,27 @@ class T(object):
         def fn(idx):
             ii = []
             for p in plan:
-                ii.append(p[1] if p[0] == 'fix' else idx[p[1]] + p[2])
+                if p[0] == 'fix':
+                    ii.append(p[1])
+                elif p[0] == 'map':
+                    q = sp.sympify(idx[p[1]])
+                    if q.is_Integer:
+                        ii.append(Integer(p[2][int(q)]))
+                    else:
+                        ii.append(sp.Piecewise(*[(Integer(v), sp.Eq(q, c_)) for c_, v in enumerate(p[2])]))
+                else:
+                    ii.append(idx[p[1]] + p[2])
             return s.fn(tuple(ii))
         if not outshape:
             return mk(fn(()))
         return T(outshape, fn, s.boolean)
+
+    def __setitem__(s, key, val):
+        if isinstance(key, T) and key.boolean:
+            probe = key.fn(tuple(sp.Symbol('_b%d' % k_, integer=True) for k_ in range(key.ndim)))
+            if probe is sp.false:
+                return           # assignment under an identically false mask
+        raise Unsupported('in-place assignment into an immutable symbolic tensor')
 
     def reshape(s, *shape, **kw):
         if len(shape) == 1 and isinstance(shape[0], (tuple, list)):
@@ -291,36 +314,42 @@ class T(object):
                     ii[sp_] = idx[dp]
                 return s.fn(tuple(ii))
             return T(shape, fn, s.boolean)
-        # general row-major: flatten then unflatten
-        def strides(sh):
+        # general row-major reshape.  Unit axes are dropped, the longest common suffix of equal axes is kept as is, and only the
+        # remaining leading axes are flattened / unflattened (so splitting (K*m, a, b) into (K, m, 1, a, b) maps k*m + j <-> (k, j))
+        src_axes = [k for k, d in enumerate(s._shape) if d != 1]
+        dst_axes = [k for k, d in enumerate(shape) if d != 1]
+        n_suf = 0
+        while n_suf < min(len(src_axes), len(dst_axes)) and \
+                sp.expand(s._shape[src_axes[-1 - n_suf]] - shape[dst_axes[-1 - n_suf]]) == 0:
+            n_suf += 1
+        src_pre, dst_pre = src_axes[:len(src_axes) - n_suf], dst_axes[:len(dst_axes) - n_suf]
+        src_suf, dst_suf = src_axes[len(src_axes) - n_suf:], dst_axes[len(dst_axes) - n_suf:]
+
+        def strides(dims):
             st = []
             acc = Integer(1)
-            for d in reversed(sh):
+            for d in reversed(dims):
                 st.append(acc)
                 acc = acc * d
             return list(reversed(st))
-        st_dst = strides(shape)
-        if len(s._shape) == 1:
-            return T(shape, lambda idx: s.fn((sp.expand(sum(i * k for i, k in zip(idx, st_dst))),)), s.boolean)
-        if len(shape) == 1:
-            # flatten ND -> 1D: index decomposition by floor/mod
-            src = s._shape
+        st_src = strides([s._shape[k] for k in src_pre])
+        st_dst = strides([shape[k] for k in dst_pre])
 
-            def fn(idx):
-                (f,) = idx
-                ii = []
-                rem = f
-                stv = strides(src)
-                for k, stv_k in enumerate(stv):
-                    if k == len(stv) - 1:
-                        ii.append(rem)
-                    else:
-                        q = sp.floor(rem / stv_k)
-                        ii.append(q)
-                        rem = rem - q * stv_k
-                return s.fn(tuple(ii))
-            return T(shape, fn, s.boolean)
-        return s.reshape(-1).reshape(shape)
+        def fn(idx):
+            ii = [Integer(0)] * len(s._shape)
+            for a_, b_ in zip(src_suf, dst_suf):
+                ii[a_] = idx[b_]
+            flat = sp.expand(sum((idx[k] * st for k, st in zip(dst_pre, st_dst)), Integer(0)))
+            rem = flat
+            for n_, (k, st) in enumerate(zip(src_pre, st_src)):
+                if n_ == len(src_pre) - 1:
+                    ii[k] = rem
+                else:
+                    q = sp.floor(rem / st)
+                    ii[k] = q
+                    rem = rem - q * st
+            return s.fn(tuple(ii))
+        return T(shape, fn, s.boolean)
 
     def flatten(s):
         return s.reshape(-1)
@@ -609,6 +638,8 @@ class _NPX(object):
     def isfinite(self, x):
         if isinstance(x, S):
             return x.e not in (sp.oo, -sp.oo, sp.nan)
+        if isinstance(x, T):
+            return T(x._shape, lambda idx: sp.true, True)      # reals are finite (IEEE inf/nan outside the model)
         if _symbolic(x):
             raise Unsupported('isfinite on symbolic array')
         return _np.isfinite(x)
@@ -631,6 +662,56 @@ class _NPX(object):
 
     def greater(self, a, b_):
         return self._cmp(a, b_, 'greater', lambda x, y: x > y)
+
+    def _extreme(self, x, axis, keepdims, name, fnum):
+        if not isinstance(x, T):
+            return fnum(x, axis=axis, keepdims=keepdims)
+        axes = list(range(x.ndim)) if axis is None else ([a_ % x.ndim for a_ in axis] if isinstance(axis, (tuple, list)) else [int(axis) % x.ndim])
+        outshape = tuple((Integer(1) if k_ in axes else d_) for k_, d_ in enumerate(x._shape)) if keepdims else tuple(
+            d_ for k_, d_ in enumerate(x._shape) if k_ not in axes)
+        # opaque: an unspecified finite real function of the remaining indices (no property of it is assumed)
+        bound = tuple(sp.Symbol('_x%d' % k_, integer=True) for k_ in range(x.ndim))
+        body = x.fn(bound)
+        key = name + '|' + sp.srepr(body) + '|' + str(axes)
+        f = EXTREME.setdefault(key, sp.Function('%s%d' % (name.upper(), len(EXTREME)), real=True))
+        EXTREME_DEFS[f.__name__] = (name, bound, body, axes, x._shape)
+
+        def fn(idx):
+            it = iter(idx)
+            rest = []
+            for k_ in range(x.ndim):
+                if k_ in axes:
+                    if keepdims:
+                        next(it)
+                else:
+                    rest.append(next(it))
+            return f(*rest) if rest else f(Integer(0))
+        if not outshape:
+            return mk(fn(()))
+        return T(outshape, fn)
+
+    def max(self, x, axis=None, keepdims=False, **kw):
+        return self._extreme(x, axis, keepdims, 'max', _np.max)
+
+    def min(self, x, axis=None, keepdims=False, **kw):
+        return self._extreme(x, axis, keepdims, 'min', _np.min)
+
+    amax = max
+    amin = min
+
+    def squeeze(self, x, axis=None):
+        if not isinstance(x, T):
+            return _np.squeeze(x, axis=axis)
+        axes = [k_ for k_, d_ in enumerate(x._shape) if d_ == 1] if axis is None else ([a_ % x.ndim for a_ in axis] if isinstance(axis, (tuple, list)) else [int(axis) % x.ndim])
+        for a_ in axes:
+            if x._shape[a_] != 1:
+                raise ValueError('cannot select an axis to squeeze out which has size not equal to one')
+        key = tuple(0 if k_ in axes else slice(None) for k_ in range(x.ndim))
+        return x[key]
+
+    @property
+    def ma(self):
+        return _MA
 
     # -- reductions
     def sum(self, x, axis=None, keepdims=False, **kw):
@@ -664,6 +745,7 @@ class _NPX(object):
                 else:
                     full.append(next(it))
             e = x.fn(tuple(full))
+            e = apply_mask(e, [j for j, d in bound])
             for j, d in bound:
                 e = mksum(e, j, d)
             return e
@@ -858,7 +940,48 @@ class _NPX(object):
         return _np.prod(x, **kw)
 
 
+EXTREME = {}
+EXTREME_DEFS = {}
+
+
+class _MAShim(object):
+    """numpy.ma inside traced code: missing values are modelled by the MASKED weight registry"""
+
+    def is_masked(self, x):
+        if isinstance(x, (S, T)) or _symbolic(x):
+            return False      # precondition of the filter contracts: at least one non-missing value per cell
+        return _np.ma.is_masked(x)
+
+    def array(self, x, mask=None, **kw):
+        if isinstance(x, T):
+            return x
+        return _np.ma.array(x, mask=mask, **kw)
+
+    def __getattr__(self, name):
+        return getattr(_np.ma, name)
+
+
+_MA = _MAShim()
 NPX = _NPX()
+
+
+MASKED = {}      # label of an IndexedBase holding observations with missing values -> IndexedBase of 0/1 weights
+                 # (numpy.ma semantics: an elementwise result is masked iff an operand is; reductions skip masked entries)
+
+
+def apply_mask(e, js):
+    """multiply by the 0/1 weight of every missing-value-carrying entry that is reduced over by this sum (once per entry)"""
+    if not MASKED:
+        return e
+    seen = set()
+    free = e.free_symbols
+    for a_ in e.atoms(sp.Indexed):
+        lab = str(a_.base.label)
+        isyms = set().union(*[i_.free_symbols for i_ in a_.indices]) if a_.indices else set()
+        if lab in MASKED and (isyms & set(js)) and isyms <= free and a_.indices not in seen:
+            seen.add(a_.indices)
+            e = e * MASKED[lab][a_.indices]
+    return e
 
 
 def mksum(e, j, d):
